@@ -82,6 +82,7 @@ def chunks(tier):
     out += [("F", first) for first in range(len(FPOOL))]
     out += [("M", i) for i in range(len(BALANCED) + len(UNBALANCED))]
     out += [("I", i) for i in range(len(BALANCED))]
+    out += [("HC", k) for k in range(len(FIRST_OPS))]
     return out
 
 
@@ -208,6 +209,18 @@ def check_invariants(res, rs, rxn_dicts, names, comp, case, with_ode=True):
         B, ck = "EXC %s" % type(e).__name__, None
     if B != B_exp or list(ck or []) != keys_exp:
         bad.append(("composition_balance_vectors", (B, ck), (B_exp, keys_exp)))
+    # the same system after its substances were re-ordered in place: the reported vectors follow the new order
+    try:
+        rs.sort_substances_inplace(key=lambda kv: tuple(-ord(ch) for ch in kv[0]))
+        names2 = list(rs.substances)
+        B2, ck2 = rs.composition_balance_vectors()
+        if [list(r) for r in B2] != [[comp[n].get(k, 0) for n in names2] for k in keys_exp] or list(ck2) != keys_exp:
+            bad.append(("composition_balance_vectors after sort_substances_inplace", [list(r) for r in B2], names2))
+        rs.sort_substances_inplace(key=lambda kv: names.index(kv[0]))
+        if list(rs.substances) != list(names):
+            bad.append(("sort_substances_inplace did not restore the order", list(rs.substances), list(names)))
+    except Exception as e:
+        bad.append(("sort_substances_inplace / composition_balance_vectors raised", type(e).__name__, None))
     S = [[p.get(n, 0) - r.get(n, 0) for n in names] for r, p in map(_full, rxn_dicts)]
     for row in B_exp:
         for srow in S:
@@ -368,6 +381,8 @@ def run_chunk(chunk, tier):
                 if rs is not None and n >= 2 and seq[0] < seq[1]:
                     check_invariants(res, rs, rx, names, COMP, case, with_ode=(n == 2))
         res.sample(dict(layer="M", first=first, unbalanced=first >= len(BALANCED)))
+    elif kind == "HC":
+        check_history_of_constructions(res, chunk[1])
     elif kind == "I":
         first = chunk[1]
         # (a reaction that consumes a species through an inactive coefficient keeps consuming it at zero concentration:
@@ -384,6 +399,48 @@ def run_chunk(chunk, tier):
                     check_integration(res, rx, _participants(rx), COMP, kpat, dict(layer="I", seq=list(seq), kpat=ki))
         res.sample(dict(layer="I", first=first))
     return res
+
+
+FIRST_OPS = ["dont_check={'balance'}", "dont_check={'duplicate'}", "checks=()", "dont_check={'balance','substance_keys'}"]
+
+
+def seq_admission_after(first_op):
+    """(runs in its own interpreter, see mc/isolated.py) one construction that legitimately switches checks off for
+    itself, followed by ordinary constructions: [(index into BALANCED+UNBALANCED, 'accepted' | 'ValueError' | ...)]"""
+    from chempy import Reaction, ReactionSystem
+
+    allr = BALANCED + UNBALANCED
+    kw = {"dont_check={'balance'}": dict(dont_check={"balance"}), "dont_check={'duplicate'}": dict(dont_check={"duplicate"}), "checks=()": dict(checks=()),
+          "dont_check={'balance','substance_keys'}": dict(dont_check={"balance", "substance_keys"})}[first_op]
+    rx = UNBALANCED[0]
+    first = "accepted"
+    try:
+        ReactionSystem([Reaction(rx[0], rx[1], 2)], _substances(_participants([rx]), COMP), **kw)
+    except Exception as e:
+        first = type(e).__name__
+    out = []
+    for i, rxn in enumerate(allr):
+        out.append([i, _observe_construct([rxn], _participants([rxn]), COMP)[1].split(":")[0]])
+    return dict(first=first, later=out)
+
+
+def check_history_of_constructions(res, k):
+    from mc import isolated
+
+    first_op = FIRST_OPS[k]
+    got = isolated.run("mc.checks.c05", "seq_admission_after", [first_op])
+    allr = BALANCED + UNBALANCED
+    for i, obs in got["later"]:
+        res.states += 1
+        res.transitions += 2
+        res.evaluations += 1
+        res.nontrivial += 1
+        exp = "accepted" if i < len(BALANCED) else "ValueError"
+        res.outcomes["after-%s:%s" % (first_op, "ok" if obs == exp else "WRONG")] += 1
+        if obs != exp:
+            res.violation("C05|history|construction-after-%s|%s" % (first_op, "unbalanced-accepted" if exp == "ValueError" else "balanced-rejected"),
+                          "after one ReactionSystem(..., %s), constructing %r with default checks: %s (expected %s)" % (first_op, allr[i], obs, exp), dict(layer="HC", k=k, i=i), obs, exp)
+    res.sample(dict(layer="HC", first_op=first_op, then="every reaction of the balanced/unbalanced lists with default checks"))
 
 
 def check_formula(res, sp, coefs, reac, prod, fn):
@@ -441,6 +498,10 @@ def replay(case):
                 if small is not None:
                     check_invariants(res, small, [(reac, prod)], names, COMP, case, with_ode=True)
                 check_invariants(res, rs, [(reac, prod)], NAMES, COMP, case, with_ode=False)
+    elif L == "HC":
+        sub = Result()
+        check_history_of_constructions(sub, case["k"])
+        res.violations = [v for v in sub.violations if v["case"]["i"] == case["i"]]
     elif L == "M":
         allr = BALANCED + UNBALANCED
         rx = [allr[i] for i in case["seq"]]
